@@ -394,7 +394,8 @@ def main(tier, seed):
                         which = "dimensions" if md != KEYROWS["D"][i][j] else "magnitudes"
                         violations.append({"what": f"InStandardPackOrder of the {which} of {sample[i][0]} and {sample[j][0]} is "
                                                    f"{KEYROWS['D' if which == 'dimensions' else 'M'][i][j]}, the model's packLt says {md if which == 'dimensions' else mm}",
-                                           "class": "corr-packorder", "rec": {"kind": "packorder", "a": sample[i][0], "b": sample[j][0], "key": which}})
+                                           "class": "corr-packorder", "no_input": True, "broken": "correspondence: Pack.packLt vs InStandardPackOrder",
+                                           "rec": {"kind": "packorder", "a": sample[i][0], "b": sample[j][0], "key": which}})
         order_stats["pack_order_pairs"] = 2 * n_ * n_
         order_stats["pack_order_mismatches"] = bad
     # the WHOLE unit ordering against its model (AuModel.UnitOrder: the six keys of InOrderFor<UnitProduct>, transcribed): every
@@ -454,15 +455,17 @@ def main(tier, seed):
                         bad += 1
                         if bad <= 3:
                             violations.append({"what": f"UnitAvoidance<{sample[i][0]}> is {KEYROWS['O'][i][0]}, the model says {mav[i]}",
-                                               "class": "corr-unitorder", "rec": {"kind": "avoidance", "unit": sample[i][0]}})
+                                               "class": "corr-unitorder", "no_input": True, "broken": "correspondence: U.avoidance vs UnitAvoidance",
+                                               "rec": {"kind": "avoidance", "unit": sample[i][0]}})
                     for j in range(n_):
                         if mrows[i][j] != rows[i][j]:
                             bad += 1
                             if bad <= 3:
                                 violations.append({"what": f"InOrderFor<UnitProduct, {sample[i][0]}, {sample[j][0]}> is {rows[i][j]}, the model of the "
                                                            f"library's unit order (U.libLt) says {mrows[i][j]}",
-                                                   "class": "corr-unitorder", "rec": {"kind": "unitorder", "a": sample[i][0], "b": sample[j][0],
-                                                                                      "impl": rows[i][j], "model": mrows[i][j]}})
+                                                   "class": "corr-unitorder", "no_input": True, "broken": "correspondence: U.libLt vs InOrderFor<UnitProduct>",
+                                                   "rec": {"kind": "unitorder", "a": sample[i][0], "b": sample[j][0],
+                                                           "impl": rows[i][j], "model": mrows[i][j]}})
                 order_stats["unit_order_pairs"] = n_ * n_
                 order_stats["unit_order_mismatches"] = bad
     req = []
